@@ -57,35 +57,38 @@ theorem clip_clip_exact (a b c d x : α) :
     clip (some c) (some d) (clip (some a) (some b) x) = clip (some (max a c)) (some (min (max b c) d)) x := by
   unfold clip; grind
 
-/-- **`successive_clip`, exact form, all presence patterns**: with `hi' = min (max b c) d` the fused Clip equals
-the two Clips for every combination of present/absent constant bounds and every `x`. -/
-theorem successive_clip_exact_sound (p : ClipClip α) (x : α) :
-    p.lhs x = p.buildExact.rhs x := by
-  unfold ClipClip.lhs ClipClip.buildExact ClipRepl.rhs clip combine
+/-- **`successive_clip`** (`FuseSuccessiveClip` as it is after fix F3, commit b85b7db): for every combination of
+present/absent constant bounds and every `x`, `Clip(Clip(x,a,b),c,d) = Clip(x, lo', hi')` with the constants
+`rewrite()` computes (`lo' = max a c`, `hi' = min (max b c) d`). -/
+theorem successive_clip_sound (p : ClipClip α) (_hcheck : p.check = true) (x : α) :
+    p.lhs x = p.build.rhs x := by
+  unfold ClipClip.lhs ClipClip.build ClipRepl.rhs clip combine
   rcases p.a.val? with _ | a <;> rcases p.b.val? with _ | b <;> rcases p.c.val? with _ | c <;>
     rcases p.d.val? with _ | d <;> simp only [] <;> grind
 
-/-- **`successive_clip` as implemented** (`lo' = max a c`, `hi' = min b d`) preserves the value whenever the
-rule fires *outside* the region `b < c ∧ b < d` (`d2`; finding D2). -/
-theorem successive_clip_sound_partial (p : ClipClip α) (_hcheck : p.check = true)
-    (hD2 : p.d2 = false) (x : α) : p.lhs x = p.build.rhs x := by
+/-- Documentation of finding D2 (fixed): the **pre-fix** formula `hi' = min b d` agrees with the two Clips exactly
+outside the region `b < c ∧ b < d` … -/
+theorem successive_clip_prefix_sound_outside_d2 (p : ClipClip α) (hD2 : p.d2 = false) (x : α) :
+    p.lhs x = p.buildPrefix.rhs x := by
   unfold ClipClip.d2 at hD2
-  unfold ClipClip.lhs ClipClip.build ClipRepl.rhs clip combine
+  unfold ClipClip.lhs ClipClip.buildPrefix ClipRepl.rhs clip combine
   generalize p.a.val? = oa at *; generalize p.b.val? = ob at *
   generalize p.c.val? = oc at *; generalize p.d.val? = od at *
   rcases oa with _ | a <;> rcases ob with _ | b <;> rcases oc with _ | c <;> rcases od with _ | d <;>
     simp only [] at hD2 ⊢ <;>
     (try simp only [Bool.and_eq_false_iff, decide_eq_false_iff_not, not_lt, Bool.and_true] at hD2) <;> grind
 
-/-- Inside the region the implemented formula is wrong **for every input**: the two Clips give `min c d`
-(resp. `c`), the fused Clip gives `b`. -/
-theorem successive_clip_unsound_in_d2 (a b c d x : α) (h1 : b < c) (h2 : b < d) :
+/-- … and inside it was wrong **for every input** (the two Clips give `min c d`, the old fused Clip gave `b`). -/
+theorem successive_clip_prefix_unsound_in_d2 (a b c d x : α) (h1 : b < c) (h2 : b < d) :
     clip (some c) (some d) (clip (some a) (some b) x) ≠ clip (some (max a c)) (some (min b d)) x := by
   unfold clip; grind
 
-/-- The unrestricted statement is false (witness D2: `Clip(Clip(x,0,1),5,10)` at `x = 0` over `Int`: 5 vs 1). -/
-theorem successive_clip_full_refuted :
-    ¬ (∀ (p : ClipClip Int), p.run = .fire p.build → ∀ x, p.lhs x = p.build.rhs x) := by
+/-- Pre-fix statement refuted (witness D2: `Clip(Clip(x,0,1),5,10)` at `x = 0` over `Int`: 5 vs 1); the same witness
+now satisfies the theorem above (`build` gives `[5, 5]`). -/
+theorem successive_clip_prefix_refuted :
+    ¬ (∀ (p : ClipClip Int), p.check = true → ∀ x, p.lhs x = p.buildPrefix.rhs x) ∧
+    (ClipClip.build ({ a := .const 0, b := .const 1, c := .const 5, d := .const 10 } : ClipClip Int)) = { lo := some 5, hi := some 5 } := by
+  refine ⟨?_, by decide⟩
   intro h
   have := h { a := .const 0, b := .const 1, c := .const 5, d := .const 10 } (by decide) 0
   revert this; decide
@@ -96,9 +99,16 @@ theorem successive_clip_relu_sound (zero : α) (p : ReluClip α) (x : α) :
   unfold ReluClip.lhsClipRelu ReluClip.build ClipRepl.rhs clip relu
   rcases p.a.val? with _ | a <;> rcases p.b.val? with _ | b <;> simp only [Option.getD] <;> grind
 
-/-- **`successive_relu_clip` as implemented** (`Relu(Clip(x,a,b)) → Clip(x, max 0 a, b)`) is right when the
-upper bound is absent or non-negative (`d1 = false`; finding D1 otherwise). -/
-theorem successive_relu_clip_sound_partial (zero : α) (p : ReluClip α)
+/-- **`successive_relu_clip`** (`FuseSuccessiveReluClip` after fix F4, commit 979daa2): for all present/absent bounds
+and every `x`, `Relu(Clip(x,a,b)) = Clip(x, max 0 (a or 0), max 0 b)`. -/
+theorem successive_relu_clip_sound (zero : α) (p : ReluClip α) (_hcheck : p.check = true) (x : α) :
+    p.lhsReluClip zero x = (p.buildReluClip zero).rhs x := by
+  unfold ReluClip.lhsReluClip ReluClip.buildReluClip ClipRepl.rhs clip relu
+  rcases p.a.val? with _ | a <;> rcases p.b.val? with _ | b <;> simp only [Option.getD, Option.map] <;> grind
+
+/-- Documentation of finding D1 (fixed): the pre-fix formula (`hi' = b`, inherited from `Clip∘Relu`) was right only
+when the upper bound is absent or non-negative … -/
+theorem successive_relu_clip_prefix_sound_outside_d1 (zero : α) (p : ReluClip α)
     (hD1 : p.d1 zero = false) (x : α) : p.lhsReluClip zero x = (p.build zero).rhs x := by
   unfold ReluClip.d1 at hD1
   unfold ReluClip.lhsReluClip ReluClip.build ClipRepl.rhs clip relu
@@ -106,20 +116,17 @@ theorem successive_relu_clip_sound_partial (zero : α) (p : ReluClip α)
   rcases oa with _ | a <;> rcases ob with _ | b <;> simp only [Option.getD] at hD1 ⊢ <;>
     (try simp only [decide_eq_false_iff_not, not_lt] at hD1) <;> grind
 
-/-- The exact form `Clip(x, max 0 a, max 0 b)` (fix F4) is right for all bounds. -/
-theorem successive_relu_clip_exact_sound (zero : α) (p : ReluClip α) (x : α) :
-    p.lhsReluClip zero x = (p.buildExactReluClip zero).rhs x := by
-  unfold ReluClip.lhsReluClip ReluClip.buildExactReluClip ClipRepl.rhs clip relu
-  rcases p.a.val? with _ | a <;> rcases p.b.val? with _ | b <;> simp only [Option.getD, Option.map] <;> grind
-
-/-- With a negative upper bound the implemented formula is wrong for every input (`0` vs `b`). -/
-theorem successive_relu_clip_unsound_in_d1 (zero a b x : α) (h : b < zero) :
+/-- … and wrong for every input with a negative upper bound (`0` vs `b`). -/
+theorem successive_relu_clip_prefix_unsound_in_d1 (zero a b x : α) (h : b < zero) :
     relu zero (clip (some a) (some b) x) ≠ clip (some (max zero a)) (some b) x := by
   unfold clip relu; grind
 
-/-- Witness D1: `Relu(Clip(x,-5,-1))` at `x = 2`: `0` vs `-1`. -/
-theorem successive_relu_clip_full_refuted :
-    ¬ (∀ (p : ReluClip Int), (p.run 0) = .fire (p.build 0) → ∀ x, p.lhsReluClip 0 x = (p.build 0).rhs x) := by
+/-- Pre-fix statement refuted (witness D1: `Relu(Clip(x,-5,-1))` at `x = 2`: `0` vs `-1`); the same witness now
+yields `Clip(x, 0, 0)`. -/
+theorem successive_relu_clip_prefix_refuted :
+    ¬ (∀ (p : ReluClip Int), p.check = true → ∀ x, p.lhsReluClip 0 x = (p.build 0).rhs x) ∧
+    (ReluClip.buildReluClip 0 ({ a := .const (-5), b := .const (-1) } : ReluClip Int)) = { lo := some 0, hi := some 0 } := by
+  refine ⟨?_, by decide⟩
   intro h
   have := h { a := .const (-5), b := .const (-1) } (by decide) 2
   revert this; decide
@@ -297,22 +304,27 @@ theorem no_op_expand_sound (xs : Shape) (sh : List Int) (s : List Nat)
     specBroadcast s (sh.map Int.toNat) = some s :=
   expand_identity xs sh s h hc
 
-/-- `materialize_reshape_shape`: for every runtime shape `s` consistent with the annotated output shape, the
-materialised constant (`-1` for the one symbolic dim, `allowzero=1`) reshapes to `s` — **provided the target does
-not contain both a 0 and a -1** (`_partial`; finding D16c2 otherwise). -/
-theorem materialize_reshape_sound_partial (os : Shape) (r : RRRepl) (sIn s : List Nat)
+/-- **`materialize_reshape_shape`** (after commit 49df852, which refuses a static 0 beside the symbolic dim): for every
+runtime shape `s` consistent with the annotated output shape, the materialised constant (`-1` for the one symbolic dim,
+`allowzero=1`) reshapes any input of the right size to `s`. -/
+theorem materialize_reshape_sound (os : Shape) (r : RRRepl) (sIn s : List Nat)
     (hfire : materializeReshapeRun false (some os) = .fire r)
     (hcons : os.length = s.length ∧ ∀ i (h : i < os.length), ∀ k, os[i] = Dim.known k → s[i]! = k)
-    (hsize : prodNat sIn = prodNat s)
-    (hno0 : ¬ (r.shape.any (· == 0) && r.shape.any (· == -1)) = true) :
+    (hsize : prodNat sIn = prodNat s) :
     specReshape sIn r.shape true = some s :=
-  materialize_sound_partial os r sIn s hfire hcons hsize hno0
+  materialize_sound os r sIn s hfire hcons hsize
 
-/-- Finding D16c2 witness: annotated `[N, 0]` → target `[-1, 0]` with `allowzero=1` is invalid although the
-original reshape to `[3, 0]` is fine. -/
-theorem materialize_reshape_full_refuted :
-    materializeReshapeRun false (some [.sym "N", .known 0]) = .fire { shape := [-1, 0], allowzero := some 1 } ∧
-    specReshape [3, 0] [-1, 0] true = none ∧ specReshape [3, 0] [3, 0] true = some [3, 0] := by decide
+/-- What the new guard buys: a fired rule never emits a target with both `0` and `-1`. -/
+theorem materialize_reshape_no_zero_beside_neg (os : Shape) (r : RRRepl)
+    (hfire : materializeReshapeRun false (some os) = .fire r) :
+    ¬ (r.shape.any (· == 0) && r.shape.any (· == -1)) = true :=
+  materialize_fire_no_zero_neg os r hfire
+
+/-- Documentation of finding D16c2 (fixed): the target `[-1, 0]` the pre-fix rule emitted for an output annotated `[N, 0]`
+is invalid although the original reshape to `[3, 0]` is fine; the rule now refuses that annotation. -/
+theorem materialize_reshape_prefix_refuted :
+    specReshape [3, 0] [-1, 0] true = none ∧ specReshape [3, 0] [3, 0] true = some [3, 0] ∧
+    materializeReshapeRun false (some [.sym "N", .known 0]) = .nofire := by decide
 
 /-- `collapse_slice`: when `check` passes for a static dim `d` of the sliced axis, the slice keeps all `d` elements
 (start 0, step 1, end ≥ d or INT64_MAX), i.e. is the identity along that axis. -/
@@ -477,18 +489,41 @@ theorem matmul_add_to_gemm_sound {α : Type} [CommRing α] (K : Nat) (ta tb : Bo
   unfold mm gemm tr
   cases ta <;> cases tb <;> simp
 
-/-- Shapes: `Add` broadcasts `C` against `(M,N)` in both directions, `Gemm` only accepts a `C` that broadcasts *to*
-`(M,N)`.  Under `cFitsGemm` (what `check` does **not** test) both results have shape `(M,N)`. -/
-theorem matmul_add_to_gemm_shape_partial (m n : Nat) (c : List Nat) (h : cFitsGemm m n c = true) :
+/-- **Shapes** (after commit be37f51): `Add` broadcasts `C` against `(M,N)` in both directions, `Gemm` only accepts a
+`C` that broadcasts *to* `(M,N)`.  Whenever `check` passes, `Add`'s result has exactly the shape `(M,N)` Gemm produces —
+for all `M`, `N` and every shape of `C`. -/
+theorem matmul_add_to_gemm_shape_sound (ra rb : Option Nat) (m n : Nat) (c : List Nat)
+    (h : matmulAddCheck ra rb m n (some c) = true) :
     specBroadcast c [m, n] = some [m, n] := by
-  unfold cFitsGemm at h
-  simpa using h
+  unfold matmulAddCheck cGuard at h
+  simp only [Bool.and_eq_true, decide_eq_true_eq] at h
+  obtain ⟨_, hlen, hall⟩ := h
+  match c, hlen, hall with
+  | [], _, _ => simp [specBroadcast] <;> (repeat' split) <;> simp_all
+  | [a], _, hall =>
+    simp only [List.reverse_cons, List.reverse_nil, List.nil_append, List.zip_cons_cons, List.zip_nil_left,
+      List.all_cons, List.all_nil, Bool.and_true, Bool.or_eq_true, beq_iff_eq] at hall
+    rcases hall with h1 | h1 <;> subst h1 <;> simp [specBroadcast] <;> (try split) <;> simp_all
+  | [a, b], _, hall =>
+    simp only [List.reverse_cons, List.reverse_nil, List.nil_append, List.cons_append, List.zip_cons_cons,
+      List.zip_nil_left, List.all_cons, List.all_nil, Bool.and_true, Bool.or_eq_true, beq_iff_eq, Bool.and_eq_true] at hall
+    obtain ⟨hb, ha⟩ := hall
+    rcases ha with ha | ha <;> rcases hb with hb | hb <;> subst ha <;> subst hb <;> simp [specBroadcast] <;>
+      (repeat' split) <;> simp_all
+  | _ :: _ :: _ :: _, hlen, _ => simp at hlen
 
-/-- Finding D16b: the rule's `check` (ranks of A and B only) passes, yet `C : [5,2,4]` broadcasts `Add`'s result to
-`[5,2,4]`, which no Gemm produces. -/
-theorem matmul_add_to_gemm_shape_refuted :
-    matmulAddCheck (some 2) (some 2) = true ∧ specBroadcast [5, 2, 4] [2, 4] = some [5, 2, 4] ∧ cFitsGemm 2 4 [5, 2, 4] = false := by
-  decide
+/-- The rule does not fire when `C`'s shape is unknown. -/
+theorem matmul_add_to_gemm_needs_c_shape (ra rb : Option Nat) (m n : Nat) :
+    matmulAddCheck ra rb m n none = false := by
+  unfold matmulAddCheck cGuard; simp
+
+/-- Documentation of finding D16b (fixed): the pre-fix `check` (ranks of A and B only) passed for `C : [5,2,4]`, whose
+`Add` result `[5,2,4]` no Gemm produces; the rule now refuses it (and `C : [3,4]` with `M = 1`). -/
+theorem matmul_add_to_gemm_prefix_refuted :
+    matmulAddCheckPrefix (some 2) (some 2) = true ∧ specBroadcast [5, 2, 4] [2, 4] = some [5, 2, 4] ∧
+    matmulAddCheck (some 2) (some 2) 2 4 (some [5, 2, 4]) = false ∧
+    matmulAddCheck (some 2) (some 2) 1 4 (some [3, 4]) = false ∧
+    matmulAddCheck (some 2) (some 2) 2 4 (some [4]) = true := by decide
 
 /-- BatchNorm folding identity per output channel, for every inner dimension `K` over any field:
 `((Σ w·x + b) − μ)·(γ/σ) + β = Σ (w·γ/σ)·x + ((b − μ)·γ/σ + β)` (`fuse_batchnorm_into_{conv,conv_transpose,gemm}`
@@ -532,17 +567,39 @@ theorem fill_pads_default_axes_example :
     fillPadsWithAxes [0, 0, 1, 2, 0, 0, 3, 4] [0, 1, 2, 3] 4 = some [0, 0, 1, 2, 0, 0, 3, 4] ∧
     fillPadsWithAxes [1, 2, 3, 4] [2, 3] 4 = some [0, 0, 1, 2, 0, 0, 3, 4] := by decide
 
-/-- ConvInteger taps are `(value − x_zero_point)`, padding supplies `x_zero_point`; with zero point 0 the Conv argument
-carries over (`_partial`: `check` does not look at `x_zero_point`). -/
-theorem pad_into_conv_integer_sound_partial (x : Int → Int) (n pb pe : Nat) (i : Int) :
+/-- **`fuse_pad_into_conv_integer`** (after commit 470d8b0): the rule fires only when `x_zero_point` is absent (default 0)
+or a constant equal to 0 … -/
+theorem pad_into_conv_integer_fires_only_zero_point (p : PadConv) (pads : List Int) (h : padConvRun p = .fire pads) :
+    p.zeroPoint = .absent ∨ p.zeroPoint = .const 0 := by
+  unfold padConvRun at h
+  split at h
+  · split at h
+    · rename_i hz
+      unfold PadConv.zeroPointOk at hz
+      split at hz
+      · left; assumption
+      · rename_i v hv
+        right; rw [hv]; simp only [beq_iff_eq] at hz; rw [hz]
+      · exact absurd hz (by simp)
+    · exact absurd h (by simp)
+  · rename_i o hne
+    exfalso
+    exact hne pads h
+
+/-- … and then ConvInteger's taps `(value − 0)` read the same elements whether the zero padding was materialised by `Pad`
+or given as `pads` (fill value = zero point = 0), for every signal, length, pad amounts and position. -/
+theorem pad_into_conv_integer_sound (x : Int → Int) (n pb pe : Nat) (i : Int) :
     ext 0 (n + pb + pe) (padded pb n x) i - 0 = ext 0 n x (i - pb) - 0 := by
   rw [pad_taps]
 
-/-- Finding D16a: zero point 5, one element padded on the left: the tap at the border reads `0 − 5` after `Pad`, but
-`5 − 5` when ConvInteger pads itself. -/
-theorem pad_into_conv_integer_zero_point_refuted :
+/-- Documentation of finding D16a (fixed): with zero point 5 and one element padded on the left, the border tap reads
+`0 − 5` after `Pad` but `5 − 5` when ConvInteger pads itself; the pre-fix rule (`padConvRunBase`) fired, the rule now refuses. -/
+theorem pad_into_conv_integer_prefix_refuted :
     ¬ (∀ (z : Int) (x : Int → Int) (n pb pe : Nat) (i : Int),
-        ext z (n + pb + pe) (padded pb n x) i - z = ext z n x (i - pb) - z) := by
+        ext z (n + pb + pe) (padded pb n x) i - z = ext z n x (i - pb) - z) ∧
+    padConvRunBase { xRank := some 3, mode := none, pads := .const [0, 0, 1, 0, 0, 1], constantValue := .absent, axes := .absent, autoPad := "NOTSET", convPads := none, zeroPoint := .const 5 } = .fire [1, 1] ∧
+    padConvRun { xRank := some 3, mode := none, pads := .const [0, 0, 1, 0, 0, 1], constantValue := .absent, axes := .absent, autoPad := "NOTSET", convPads := none, zeroPoint := .const 5 } = .nofire := by
+  refine ⟨?_, by decide, by decide⟩
   intro h
   have := h 5 (fun _ => 7) 1 1 0 0
   revert this; unfold ext padded ext; decide
@@ -579,12 +636,12 @@ end Linalg
 section NonVacuity
 open OV.C05.Order OV.C05.Shape OV.C05.Unit OV.C05.Linalg
 
--- successive_clip_sound_partial: Clip(Clip(x,0,6),1,4) fires, lies outside d2, fused bounds [1,4]
+-- successive_clip_sound: Clip(Clip(x,0,6),1,4) fires, fused bounds [1,4]; a disjoint pair gives [5,5]
 example : let p : ClipClip Int := { a := .const 0, b := .const 6, c := .const 1, d := .const 4 }
-    p.check = true ∧ p.d2 = false ∧ p.build = { lo := some 1, hi := some 4 } ∧ p.lhs 9 = 4 := by decide
--- successive_relu_clip_sound_partial: Relu(Clip(x,-2,5))
+    p.check = true ∧ p.run = .fire { lo := some 1, hi := some 4 } ∧ p.lhs 9 = 4 := by decide
+-- successive_relu_clip_sound: Relu(Clip(x,-2,5)) and Relu(Clip(x,-5,-1))
 example : let p : ReluClip Int := { a := .const (-2), b := .const 5 }
-    p.check = true ∧ p.d1 0 = false ∧ p.build 0 = { lo := some 0, hi := some 5 } := by decide
+    p.check = true ∧ p.runReluClip 0 = .fire { lo := some 0, hi := some 5 } := by decide
 -- a graph-input bound blocks the relu/clip rules
 example : (ClipClip.check ({ a := .constInput 0, b := .absent, c := .absent, d := .absent } : ClipClip Int)) = false := by decide
 -- min_max fires only with lb ≤ ub
@@ -617,7 +674,8 @@ example : staticScatterRun (some [.known 2, .known 3]) (some [.known 2, .known 3
 -- pads: Pad [0,0,1,0,0,2] into Conv pads [1,0]
 example : padConvRun { xRank := some 3, mode := none, pads := .const [0, 0, 1, 0, 0, 2], constantValue := .absent, axes := .absent, autoPad := "NOTSET", convPads := some [1, 0] } = .fire [2, 2] := by decide
 -- gemm: C of shape [4] fits (2,4)
-example : cFitsGemm 2 4 [4] = true ∧ cFitsGemm 2 4 [] = true ∧ cFitsGemm 1 4 [3, 4] = false := by decide
+example : matmulAddCheck (some 2) (some 2) 2 4 (some [4]) = true ∧ matmulAddCheck (some 2) (some 2) 2 4 (some []) = true ∧
+    matmulAddCheck (some 2) (some 2) 2 4 (some [2, 1]) = true ∧ matmulAddCheck (some 2) (some 3) 2 4 (some [4]) = false := by decide
 
 end NonVacuity
 
